@@ -187,7 +187,67 @@ def sites(root):
                     out.append((v, "data:byteorder-same-bytes"))
                 if v.data.ndim >= 2 and not v.data.flags.c_contiguous:
                     out.append((v, "data:memory-bytes-same"))
+            if isinstance(v, DataWrapper) and isinstance(v.data, np.generic):
+                out.append((v, "data:scalar-element"))
+                out.append((v, "data:scalar-dtype-same-bytes"))
+            from pytato.array import IndexLambda
+            if isinstance(v, IndexLambda) and _count_np_scalars(v.expr):
+                out.append((v, "expr:scalar-dtype-same-bytes"))
     return out
+
+
+# {{{ numpy scalars inside scalar expressions (reflective, no pymbolic mapper)
+
+_SAME_BYTES = {"float32": "int32", "int32": "float32", "float64": "int64",
+               "int64": "float64", "uint32": "int32", "complex64": "float64",
+               "int8": "uint8", "uint8": "int8"}
+
+
+def same_bytes_scalar(x):
+    """another numpy scalar with the same bytes and another dtype (and
+    another value), or None"""
+    tgt = _SAME_BYTES.get(x.dtype.name)
+    if tgt is None:
+        return None
+    y = np.frombuffer(np.asarray(x).tobytes(), dtype=tgt)[0]
+    if y.tobytes() != np.asarray(x).tobytes():
+        return None
+    return y
+
+
+def _map_np_scalars(expr, fn):
+    """copy of a (dataclass based) pymbolic expression with fn applied to
+    every numpy scalar leaf, in a fixed order"""
+    import dataclasses
+
+    def rec(v):
+        if isinstance(v, np.generic):
+            return fn(v)
+        if isinstance(v, tuple):
+            new = tuple(rec(x) for x in v)
+            return new if any(a is not b for a, b in zip(new, v)) else v
+        if dataclasses.is_dataclass(v) and not isinstance(v, type):
+            changes = {}
+            for f in dataclasses.fields(v):
+                old = getattr(v, f.name)
+                new = rec(old)
+                if new is not old:
+                    changes[f.name] = new
+            return dataclasses.replace(v, **changes) if changes else v
+        return v
+    return rec(expr)
+
+
+def _count_np_scalars(expr):
+    n = [0]
+
+    def fn(x):
+        n[0] += 1
+        return x
+    _map_np_scalars(expr, fn)
+    return n[0]
+
+# }}}
 
 
 def site_signature(node, fname):
@@ -369,6 +429,34 @@ def new_value(node, fname, cur, rng, counter):
 def mutate_site(root, node, fname, rng, counter):
     """-> new root with exactly that field of that node changed"""
     import pytato as pt
+    if fname == "expr:scalar-dtype-same-bytes":
+        k = rng.randrange(_count_np_scalars(node.expr))
+        i = [0]
+        hit = [False]
+
+        def fn(x):
+            j = i[0]
+            i[0] += 1
+            if j == k:
+                y = same_bytes_scalar(x)
+                if y is not None:
+                    hit[0] = True
+                    return y
+            return x
+        new_expr = _map_np_scalars(node.expr, fn)
+        if not hit[0]:
+            raise Ineffective("no same-size dtype for this scalar")
+        return rebuild(root, node, changes={"expr": new_expr})
+    if fname in ("data:scalar-element", "data:scalar-dtype-same-bytes"):
+        d = node.data
+        if fname == "data:scalar-element":
+            nd = type(d)(d + 1)
+        else:
+            nd = same_bytes_scalar(d)
+            if nd is None:
+                raise Ineffective("no same-size dtype")
+        repl = pt.make_data_wrapper(nd, tags=node.tags)
+        return rebuild(root, node, replacement=repl)
     if fname.startswith("data:"):
         d = node.data
         if fname == "data:element":
